@@ -74,6 +74,8 @@ func (f *RTFamily) Run(tier string, idx int, r *core.ScnResult) {
 	}
 	if it.Scn.Bound > 0 {
 		bound = it.Scn.Bound
+	} else if it.Scn.Bound < 0 {
+		bound = 0 // the item asks for the default schedule only (large requests)
 	}
 	r.Nontrivial = true
 	var last *RTResult
